@@ -1,5 +1,6 @@
 import HexVerif.Lemmas.XcmpCall
 import HexVerif.Lemmas.XcmpStage3
+import HexVerif.Lemmas.XcmpPExpr
 /-!
   Stage (4), definitions: the program context `GCtx` (every procedure with its code position and
   generation facts), the procedure context `KOf` of an activation as a function of its stack
@@ -34,6 +35,67 @@ def okS4L (ps : List String) : List X.Stmt → Bool
   | s :: ss => okS4 ps s && okS4L ps ss
 end
 
+/-- A right-hand side: call-free, one call with call-free actuals, or (class v3, `pk`) operators
+    over calls of pure functions. -/
+def rhs5 (pk : Bool) (ps imp : List String) (e : X.Expr) : Bool :=
+  pureE e || callE ps e || (pk && ppE ps imp e)
+
+/-- A condition: call-free, or (class v3) operators over calls of pure functions. -/
+def cond5 (pk : Bool) (ps imp : List String) (e : X.Expr) : Bool :=
+  pureE e || (pk && ppE ps imp e)
+
+mutual
+/-- The statements of stage (4), with calls of pure functions in operands if `pk`. -/
+def okS5 (pk : Bool) (ps imp : List String) : X.Stmt → Bool
+  | .skip | .stop => true
+  | .ret e => rhs5 pk ps imp e
+  | .ite c t e => cond5 pk ps imp c && okS5 pk ps imp t && okS5 pk ps imp e
+  | .while c b => cond5 pk ps imp c && okS5 pk ps imp b
+  | .seq ss => okS5L pk ps imp ss
+  | .assign _ e => rhs5 pk ps imp e
+  | .syscall id args => decide (id < 3) && args.all pureE
+  | .call f args => ps.contains f && args.all pureE
+  | .assignSub _ _ _ => false
+def okS5L (pk : Bool) (ps imp : List String) : List X.Stmt → Bool
+  | [] => true
+  | s :: ss => okS5 pk ps imp s && okS5L pk ps imp ss
+end
+
+mutual
+theorem okS4_okS5 (pk : Bool) (ps imp : List String) : (s : X.Stmt) → okS4 ps s = true → okS5 pk ps imp s = true
+  | .skip, _ => rfl
+  | .stop, _ => rfl
+  | .ret e, h => by
+    simp only [okS4, Bool.or_eq_true] at h
+    simp only [okS5, rhs5, Bool.or_eq_true]
+    exact Or.inl h
+  | .assign _ e, h => by
+    simp only [okS4, Bool.or_eq_true] at h
+    simp only [okS5, rhs5, Bool.or_eq_true]
+    exact Or.inl h
+  | .ite c t e, h => by
+    simp only [okS4, Bool.and_eq_true] at h
+    simp only [okS5, cond5, Bool.and_eq_true, Bool.or_eq_true]
+    exact ⟨⟨Or.inl h.1.1, okS4_okS5 pk ps imp t h.1.2⟩, okS4_okS5 pk ps imp e h.2⟩
+  | .while c b, h => by
+    simp only [okS4, Bool.and_eq_true] at h
+    simp only [okS5, cond5, Bool.and_eq_true, Bool.or_eq_true]
+    exact ⟨Or.inl h.1, okS4_okS5 pk ps imp b h.2⟩
+  | .seq ss, h => by
+    simp only [okS4] at h
+    simp only [okS5]
+    exact okS4L_okS5L pk ps imp ss h
+  | .syscall _ _, h => by simp only [okS4] at h; simp only [okS5]; exact h
+  | .call _ _, h => by simp only [okS4] at h; simp only [okS5]; exact h
+  | .assignSub _ _ _, h => by simp [okS4] at h
+theorem okS4L_okS5L (pk : Bool) (ps imp : List String) : (ss : List X.Stmt) → okS4L ps ss = true → okS5L pk ps imp ss = true
+  | [], _ => rfl
+  | s :: ss, h => by
+    simp only [okS4L, Bool.and_eq_true] at h
+    simp only [okS5L, Bool.and_eq_true]
+    exact ⟨okS4_okS5 pk ps imp s h.1, okS4L_okS5L pk ps imp ss h.2⟩
+end
+
 def isValFormal : X.Formal → Bool
   | .val _ => true
   | _ => false
@@ -63,6 +125,9 @@ structure GCtx where
   spv : Nat                            -- initial stack pointer
   smax : Nat                           -- largest frame
   lo : Nat                             -- lowest stack pointer of any activation
+  pk : Bool := false                   -- class v3: calls of pure functions in operands
+  abase : Nat → Nat := fun _ => 0      -- word address of the global array with the given id
+  asize : Nat → Nat := fun _ => 0      -- its length
 
 def GCtx.S (G : GCtx) (pi : PInfo) : Nat := (frameOf G.cg pi.idx).size
 def GCtx.xl (G : GCtx) (pi : PInfo) : String := (frameOf G.cg pi.idx).exitLabel
@@ -122,13 +187,23 @@ theorem GCtx.locOf_cases (G : GCtx) (pi : PInfo) (sp : Nat) (n : String) (a : Na
 def KOf (G : GCtx) (pi : PInfo) (sp dep : Nat) (hi : Nat → Word) : PCtx :=
   { env := G.env, out := G.cg, ctx := G.ctxOf pi, xc := G.xc, ρ := fun _ => none, sp := sp,
     loc := G.locOf pi sp, consts := G.consts, nlocals := pi.p.locals.length, hi := hi,
-    gnames := G.gnames ++ G.pnames, dep := dep }
+    gnames := G.gnames ++ G.pnames, dep := dep, abase := G.abase, asize := G.asize }
+
+/-- The same program context without its arrays (for facts that do not depend on them). -/
+def GCtx.noArr (G : GCtx) : GCtx := { G with asize := fun _ => 0 }
 
 theorem KOf_S (G : GCtx) (pi : PInfo) (sp dep : Nat) (hi : Nat → Word) : (KOf G pi sp dep hi).S = G.S pi := rfl
 
+/-- The word `a` is an element of a global array. -/
+def GCtx.inArr (G : GCtx) (a : Nat) : Prop := ∃ id, G.abase id ≤ a ∧ a < G.abase id + G.asize id
+
 /-- The global state in memory, independently of any scope. -/
 structure GRep (G : GCtx) (σ : X.St) (mem : Mem) : Prop where
-  gvars : ∀ n w, n ∈ G.gnames → σ.gvars.lookup n = some (some w) → ∃ a, G.gloc n = some a ∧ mem.read a = w
+  gvars : ∀ n w, G.xc.genv.lookup n = some .var → σ.gvars.lookup n = some (some w) → ∃ a, G.gloc n = some a ∧ mem.read a = w
+  aptr : ∀ n id, G.xc.genv.lookup n = some (.array id) →
+    ∃ a, G.gloc n = some a ∧ mem.read a = BitVec.ofNat 32 (G.abase id)
+  acells : ∀ id cells, σ.arrays[id]? = some cells → cells.size = G.asize id ∧
+    ∀ idx w, cells[idx]? = some (some w) → mem.read (G.abase id + idx) = w
   consts : ∀ v l j k, (v, l) ∈ G.consts → G.env.ds[j]? = some (.label k l) → mem.read (G.env.addr j / 4) = IAm.W v
 
 def PInfo.lnames (pi : PInfo) : List String := pi.p.formals.map X.Formal.name ++ pi.p.locals.map X.Decl.name
@@ -145,13 +220,16 @@ structure GCtx.OK (G : GCtx) : Prop where
   nl_ok : ∀ pi ∈ G.procs, pi.p.locals.length ≤ pi.gs1.offset
   consts_ok : ∀ pi ∈ G.procs, ∀ e ∈ pi.gs2.constMap, e ∈ G.consts
   smax_ok : ∀ pi ∈ G.procs, G.S pi ≤ G.smax
-  body_ok : ∀ pi ∈ G.procs, okS4 G.pnames pi.p.body = true
+  body_ok : ∀ pi ∈ G.procs, okS5 G.pk G.pnames G.xc.impure pi.p.body = true
+  pure_ok : G.pk = true → PureOk G.xc
   formals_val : ∀ pi ∈ G.procs, pi.p.formals.all isValFormal = true
   locals_var : ∀ pi ∈ G.procs, pi.p.locals.all isVarDecl = true
   resolve : ∀ f p, G.xc.genv.lookup f = some (.proc p) → ∃ pi ∈ G.procs, pi.p = p ∧ p.name = f
   callee_sym : ∀ pi ∈ G.procs, ∀ pj ∈ G.procs, ∃ sym, G.cg.tbl.lookup pi.p.name pj.p.name = .ok sym ∧
     (sym.type = .func ↔ pj.p.isFunc = true)
-  genv_vars : ∀ n, n ∈ G.gnames ↔ G.xc.genv.lookup n = some .var
+  genv_vars : ∀ n, G.xc.genv.lookup n = some .var → n ∈ G.gnames
+  genv_arrs : ∀ n id, G.xc.genv.lookup n = some (.array id) → n ∈ G.gnames
+  gnames_genv : ∀ n ∈ G.gnames, G.xc.genv.lookup n = some .var ∨ ∃ id, G.xc.genv.lookup n = some (.array id)
   no_vals : ∀ n w, G.xc.genv.lookup n ≠ some (.val w)
   pnames_ok : ∀ f p, G.xc.genv.lookup f = some (.proc p) → f ∈ G.pnames
   pnames_mem : ∀ f ∈ G.pnames, ∃ p, G.xc.genv.lookup f = some (.proc p)
@@ -174,6 +252,9 @@ structure GCtx.OK (G : GCtx) : Prop where
   lo_def : G.lo + X.maxDepth * G.smax ≤ G.spv
   addr_lt : ∀ j k n, G.env.ds[j]? = some (.label k n) → G.env.addr j < 2 ^ 32
   const_lo : ∀ v l j k, (v, l) ∈ G.consts → G.env.ds[j]? = some (.label k l) → G.env.addr j / 4 < G.lo
+  arr_hi : ∀ id, G.asize id ≠ 0 → G.spv + 2 < G.abase id ∧ G.abase id + G.asize id ≤ memWords
+  arr_disj : ∀ id1 id2, id1 ≠ id2 → G.asize id1 ≠ 0 → G.asize id2 ≠ 0 →
+    G.abase id1 + G.asize id1 ≤ G.abase id2 ∨ G.abase id2 + G.asize id2 ≤ G.abase id1
 
 /-- **Specification of a callee**, independent of the caller: entered at its prologue with the
     link address in areg, the caller's stack pointer `spc` in word 1 and the actuals in the
@@ -189,7 +270,7 @@ def CallSpec (G : GCtx) (fuel : Nat) : Prop :=
     match X.callUser fuel G.xc pi.p (ws.map Val.int) st with
     | .ok res s' => ∃ a' b' mem', Steps G.env (cfg pi.iPro lnk b mem) st.io (cfg k a' b' mem') s'.io ∧
         GRep G s' mem' ∧ mem'.read 1 = BitVec.ofNat 32 spc ∧
-        (∀ x, spc < x → x ≠ spc + 1 → mem'.read x = mem.read x) ∧
+        (∀ x, spc < x → x ≠ spc + 1 → ¬ G.inArr x → mem'.read x = mem.read x) ∧
         (∀ w, res = some w → mem'.read (spc + 1) = w) ∧
         (pi.p.isFunc = false → mem'.read (spc + 1) = mem.read (spc + 1))
     | .exit code s' => ∃ c, Steps G.env (cfg pi.iPro lnk b mem) st.io c s'.io ∧ Exit G.env c s'.io code
